@@ -157,6 +157,10 @@ class Reporter:
         known_hit = sorted(k for k in by_key if k in open_keys)
 
         rdir = os.path.join(VERIF, "replays", self.pid)
+        if os.path.isdir(rdir):  # replay files describe the latest run only
+            for f in os.listdir(rdir):
+                if f.endswith(".json"):
+                    os.unlink(os.path.join(rdir, f))
         lines = []
         for k in known_hit:
             lines.append(f"KNOWN-FINDING: property={self.pid} {open_keys[k].get('what', k)} [key={k}]")
